@@ -4,12 +4,12 @@ go 1.24.2
 
 require (
 	github.com/richardwilkes/toolbox v0.0.0
+	golang.org/x/exp v0.0.0-20250305212735-054e65f0b394
 	gopkg.in/yaml.v3 v3.0.1
 )
 
 require (
 	github.com/pkg/term v1.1.0 // indirect
-	golang.org/x/exp v0.0.0-20250305212735-054e65f0b394 // indirect
 	golang.org/x/sys v0.32.0 // indirect
 )
 
